@@ -78,7 +78,8 @@ def guard_facts(kb):
     import os
     ev = chai2c.Header("include/chaiscript/language/chaiscript_eval.hpp")
     en = chai2c.Header("include/chaiscript/language/chaiscript_engine.hpp")
-    allsrc = {h.relpath: chai2c.strip_comments(h.text) for h in (cm, dk, ev, en)}
+    opt = chai2c.Header("include/chaiscript/language/chaiscript_optimizer.hpp")
+    allsrc = {h.relpath: chai2c.strip_comments(h.text) for h in (cm, dk, ev, en, opt)}
     pairs = [("Scope_Push_Pop", "new_scope", "pop_scope", cm), ("Function_Push_Pop", "new_function_call", "pop_function_call", cm),
              ("Stack_Push_Pop", "new_stack", "pop_stack", cm), ("This_Foist", "new_scope", "pop_scope", dk)]
     for guard, push, pop, hdr in pairs:
@@ -95,7 +96,11 @@ def guard_facts(kb):
     bad = []
     total = 0
     for rel, txt in allsrc.items():
-        for mm in re.finditer(r"(?:->|\.)\s*(new_scope|pop_scope|new_stack|pop_stack|new_function_call|pop_function_call)\s*\(", txt):
+        for mm in re.finditer(r"(?:(?:->|\.)\s*|(?<![\w>.:~]))(new_scope|pop_scope|new_stack|pop_stack|new_function_call|pop_function_call)\s*\(", txt):
+            if re.search(r"\bvoid\s+$", txt[max(0, mm.start() - 16):mm.start()]):
+                continue  # the definition of the primitive itself
+            if re.search(r"\{\s*$", txt[max(0, mm.start() - 4):mm.start()]) and re.search(r"\bvoid (new_scope|pop_scope|new_stack|pop_stack|new_function_call|pop_function_call)\(\)\s*\{\s*$", txt[max(0, mm.start() - 60):mm.start()]):
+                continue  # the zero-argument forwarding overload `void pop_scope() { pop_scope(*m_stack_holder); }`
             total += 1
             # enclosing struct: nearest preceding 'struct X {' whose block contains the site
             pos = mm.start()
@@ -149,7 +154,7 @@ def guard_facts(kb):
         ok = bool(g and a and e and g.start() < a.start() and g.start() < e.start())
     kb.static_facts.append(("eval_function_opens_the_callee_stack_before_binding_parameters_and_evaluating_the_body", ok if efm else None, "chaiscript_eval.hpp eval_function"))
     kb.static_facts.append(("push_pop_primitives_called_only_from_the_four_guards", not bad,
-                            "%d call sites scanned in chaiscript_common/dispatchkit/chaiscript_eval/chaiscript_engine; outside a guard: %s"
+                            "%d call sites scanned in chaiscript_common/dispatchkit/chaiscript_eval/chaiscript_engine/chaiscript_optimizer; outside a guard: %s"
                             % (total, bad or "none")))
 
 
